@@ -20,6 +20,22 @@ func intData(r *rand.Rand, d tensor.Dtype, shape []int) tensor.Tensor {
 	return mkT(d, shape, v)
 }
 
+func bigIntData(r *rand.Rand, d tensor.Dtype, shape []int) tensor.Tensor {
+	n := numel(shape)
+	v := make([]int64, n)
+	pool := []int64{1, 0, 2, 1 << 53, (1 << 53) + 1, 3037000500, 1234567890123456789, 65536, 65537, 7, 1 << 31, (1 << 31) - 1, 1 << 62}
+	if d == tensor.Int32 || d == tensor.Uint32 {
+		pool = []int64{1, 0, 2, 65536, 65537, 7, 46341, (1 << 31) - 1, 1 << 30, 123456789}
+	}
+	for i := range v {
+		v[i] = pool[r.Intn(len(pool))]
+		if (d == tensor.Int32 || d == tensor.Int64) && r.Intn(4) == 0 {
+			v[i] = -v[i]
+		}
+	}
+	return mkT(d, shape, v)
+}
+
 func cloneAll(ts []tensor.Tensor) []tensor.Tensor {
 	out := make([]tensor.Tensor, len(ts))
 	for i, t := range ts {
@@ -39,7 +55,7 @@ func genC04(dir, tier string, seed int64) {
 		nMat, nGemm, nLin, nSc = 12000, 8000, 3000, 2000
 	}
 	cw := newCaseWriter(dir, "C04_ops", opHeader("CheckC04"), opFooter,
-		"seeded random: MatMul over operand ranks 1..5 (vector.vector, vector.matrix, matrix.vector, stacks with broadcastable and non-broadcastable batch shapes, size-1 matrix dimensions inside a batch, inner extents matching or not); Gemm over M,K,N in 1..3, the 4 transpose combinations, alpha/beta in -2..3 or absent, C in {absent, scalar, (N), (1,N), (M,1), (M,N), (1), (1,1), wrong shapes}; LinearRegressor over 1..3 targets x 1..4 features, intercepts of length targets / 1 / wrong / absent, coefficient count divisible or not; Scaler over ranks 1..3 with offset/scale of length F, 1 or wrong; element types float32 (mostly), float64, int32, int64, uint32, uint64; integer-valued data so that float arithmetic is exact and results are compared exactly", false, 300)
+		"seeded random: MatMul over operand ranks 1..5 (vector.vector, vector.matrix, matrix.vector, stacks with broadcastable and non-broadcastable batch shapes, size-1 matrix dimensions inside a batch, inner extents matching or not); Gemm over M,K,N in 1..3, the 4 transpose combinations, alpha/beta in -2..3 or absent, C in {absent, scalar, (N), (1,N), (M,1), (M,N), (1), (1,1), wrong shapes}; LinearRegressor over 1..3 targets x 1..4 features, intercepts of length targets / 1 / wrong / absent, coefficient count divisible or not; Scaler over ranks 1..3 with offset/scale of length F, 1 or wrong; element types float32 (mostly), float64, int32, int64, uint32, uint64 (half of the integer MatMul cases with operands beyond 2^53 / products that wrap around the type); integer-valued data so that float arithmetic is exact and results are compared exactly", false, 300)
 	dts := []tensor.Dtype{tensor.Float32, tensor.Float32, tensor.Float32, tensor.Float32, tensor.Float64, tensor.Int32, tensor.Int64, tensor.Uint32, tensor.Uint64}
 	ext := func() int { return 1 + r.Intn(3) }
 	// ---- MatMul ----
@@ -100,6 +116,10 @@ func genC04(dir, tier string, seed int64) {
 		sa = append(ba, sa...)
 		sb = append(bb, sb...)
 		a, b := intData(r, d, sa), intData(r, d, sb)
+		if d != tensor.Float32 && d != tensor.Float64 && r.Intn(2) == 0 {
+			// integer operands whose products and sums need more than 53 bits, or wrap around the type
+			a, b = bigIntData(r, d, sa), bigIntData(r, d, sb)
+		}
 		if r.Intn(25) == 0 { // mixed element types
 			b = intData(r, pick(r, dts), sb)
 		}
@@ -217,6 +237,115 @@ func genC04(dir, tier string, seed int64) {
 		d := pick(r, []tensor.Dtype{tensor.Float32, tensor.Float32, tensor.Float32, tensor.Float64, tensor.Int32, tensor.Int64})
 		x := intData(r, d, xs)
 		emitOp(cw, "Scaler", attrs, func() []tensor.Tensor { return cloneAll([]tensor.Tensor{x}) })
+	}
+	cw.close()
+	genC04Float(dir, tier, r)
+}
+
+// float32 data that is not integer valued, judged against interval enclosures (Check/CheckC04F.v)
+func genC04Float(dir, tier string, r *rand.Rand) {
+	payloadAsIntegers = false
+	defer func() { payloadAsIntegers = true }()
+	n := 120
+	if tier == "thorough" {
+		n = 3000
+	}
+	cw := newCaseWriter(dir, "C04_float", opHeader("CheckC04F"), opFooter,
+		"seeded random float32 data that is not integer valued (magnitudes 1e-3..1e3, mixed signs): MatMul (2-D, M,K,N in 1..4), Gemm (4 transpose combinations, alpha/beta absent or random, C absent / scalar / (N) / (1,N) / (M,1) / (M,N)), LinearRegressor (1..3 targets x 1..4 features, intercepts given / one / absent), Scaler (offset and scale per feature or one for all; one case in three with x within a few units of an offset of magnitude 1e5..2e9, where an algebraically equal but numerically different formula cancels): every output element must lie in the rounding-aware enclosure of the ONNX formula", false, 60)
+	ext := func() int { return 1 + r.Intn(4) }
+	mag := func() float64 { return []float64{1e-3, 0.1, 1, 1, 7, 1e3}[r.Intn(6)] }
+	fvals := func(k int, m float64) []float32 {
+		v := make([]float32, k)
+		for i := range v {
+			v[i] = float32((r.Float64()*2 - 1) * m)
+		}
+		return v
+	}
+	for c := 0; c < n; c++ {
+		// MatMul
+		M, K, N := ext(), ext(), ext()
+		a, b := randT(r, false, mag(), M, K), randT(r, false, mag(), K, N)
+		emitOp(cw, "MatMul", nil, func() []tensor.Tensor { return cloneAll([]tensor.Tensor{a, b}) })
+		// Gemm
+		tA, tB := r.Intn(2), r.Intn(2)
+		sa, sb := []int{M, K}, []int{K, N}
+		if tA == 1 {
+			sa = []int{K, M}
+		}
+		if tB == 1 {
+			sb = []int{N, K}
+		}
+		var attrs []attr
+		if tA == 1 || r.Intn(3) == 0 {
+			attrs = append(attrs, aInt("transA", int64(tA)))
+		}
+		if tB == 1 || r.Intn(3) == 0 {
+			attrs = append(attrs, aInt("transB", int64(tB)))
+		}
+		if r.Intn(2) == 0 {
+			attrs = append(attrs, aFloat("alpha", fvals(1, 3)[0]))
+		}
+		if r.Intn(2) == 0 {
+			attrs = append(attrs, aFloat("beta", fvals(1, 3)[0]))
+		}
+		ga, gb := randT(r, false, mag(), sa...), randT(r, false, mag(), sb...)
+		gin := []tensor.Tensor{ga, gb}
+		switch r.Intn(6) {
+		case 0:
+		case 1:
+			gin = append(gin, randT(r, false, mag(), N))
+		case 2:
+			gin = append(gin, randT(r, false, mag(), 1, N))
+		case 3:
+			gin = append(gin, randT(r, false, mag(), M, 1))
+		case 4:
+			gin = append(gin, randT(r, false, mag(), M, N))
+		default:
+			gin = append(gin, randT(r, false, mag(), 1))
+		}
+		emitOp(cw, "Gemm", attrs, func() []tensor.Tensor { return cloneAll(gin) })
+		// LinearRegressor
+		T, F, Nn := 1+r.Intn(3), ext(), 1+r.Intn(3)
+		la := []attr{aFloats("coefficients", fvals(T*F, mag())), aInt("targets", int64(T))}
+		switch r.Intn(3) {
+		case 0:
+			la = append(la, aFloats("intercepts", fvals(T, mag())))
+		case 1:
+			if T == 1 {
+				la = append(la, aFloats("intercepts", fvals(1, mag())))
+			}
+		}
+		lx := randT(r, false, mag(), Nn, F)
+		emitOp(cw, "LinearRegressor", la, func() []tensor.Tensor { return cloneAll([]tensor.Tensor{lx}) })
+		// Scaler
+		lo, ls := F, F
+		if r.Intn(5) == 0 {
+			lo = 1
+		}
+		if r.Intn(5) == 0 {
+			ls = 1
+		}
+		off, scl := fvals(lo, mag()), fvals(ls, 2)
+		sx := randT(r, false, mag(), Nn, F)
+		if c%3 == 0 {
+			// a standardised feature with a large mean: x within a few units of the offset
+			big := []float32{1e7, 101325, 1.7e9, 123456.7, 3e5}
+			d := sx.Data().([]float32)
+			for i := range off {
+				off[i] = big[r.Intn(len(big))]
+				if r.Intn(3) == 0 {
+					off[i] = -off[i]
+				}
+			}
+			for i := range d {
+				d[i] = off[(i%F)%len(off)] + float32(r.Intn(7)-3) + float32(r.Intn(4))*0.25
+			}
+			for i := range scl {
+				scl[i] = []float32{0.37, 0.00125, 1.1, -2.3}[r.Intn(4)]
+			}
+		}
+		sattrs := []attr{aFloats("offset", off), aFloats("scale", scl)}
+		emitOp(cw, "Scaler", sattrs, func() []tensor.Tensor { return cloneAll([]tensor.Tensor{sx}) })
 	}
 	cw.close()
 }
